@@ -251,94 +251,73 @@ theorem readString_spec (m : Mem) (l : LBuf) (size : Nat) (hwf : SlicesWF m l.sl
       rw [hsl] at e c
       exact ⟨m', l', _, e, by simp, by simpa using c, w, n, dd⟩
 
-/-- linkedBuffer.ReadByte with at least one byte buffered: IF it returns (it indexes the first byte of the next slice when
-    the front slice is exhausted, so it relies on that slice not being empty), it returns the next byte and consumes it -/
-theorem readByte_spec (m : Mem) (l : LBuf) (hwf : SlicesWF m l.sl) (hsz : 1 ≤ (content m l.sl).length)
-    (m' : Mem) (l' : LBuf) (b : Nat) (h : l.readByte m = some (m', l', b)) :
-    [b] = (content m l.sl).take 1 ∧ content m' l'.sl = (content m l.sl).drop 1 ∧ SlicesWF m' l'.sl ∧ l'.len = l.len - 1 ∧
+theorem readByte_go_spec : ∀ (fuel : Nat) (m : Mem) (l : LBuf), SlicesWF m l.sl → 1 ≤ (content m l.sl).length →
+    l.sl.length + 1 ≤ fuel →
+    ∃ m' l' b, LBuf.readByte.go fuel m l = some (m', l', b) ∧
+      [b] = (content m l.sl).take 1 ∧ content m' l'.sl = (content m l.sl).drop 1 ∧ SlicesWF m' l'.sl ∧ l'.len = l.len - 1 ∧
       (∀ j, (m'.slot j).data = (m.slot j).data) := by
-  unfold LBuf.readByte at h
-  cases hsl : l.sl with
-  | nil => rw [hsl] at hsz; simp [content] at hsz
-  | cons f r =>
-    have hf : f.WF m := hwf f (by rw [hsl]; exact mem_cons_self)
-    have hr : SlicesWF m r := fun x hx => hwf x (by rw [hsl]; exact mem_cons_of_mem _ hx)
-    simp only [LBuf.front?, hsl, head?_cons] at h
-    obtain ⟨rd1, rd2, rd3, rd4, rd5, rd6⟩ := BS.read_spec m f 1 hf
-    rcases hrd : f.read m 1 with ⟨f', d, sh⟩
-    rw [hrd] at rd1 rd2 rd3 rd4 rd5 rd6 h
-    simp only at rd1 rd2 rd3 rd4 rd5 rd6 h
-    have hu := BS.unread_length m f hf
-    have hsl1 : (l.setFront f').sl = f' :: r := by rw [setFront_sl, hsl]; rfl
-    have hwf1 : SlicesWF m (l.setFront f').sl := by
-      rw [hsl1]; intro x hx
-      rcases mem_cons.mp hx with rfl | hx
-      · exact rd3
-      · exact hr x hx
-    by_cases hshort : sh = true
-    · -- the front slice is exhausted
-      have hz : f.size = 0 := by have := rd5.mp hshort; omega
-      simp only [hshort, Bool.not_true, Bool.false_eq_true, if_false] at h
-      obtain ⟨m2, l2, e1, e2, e3, e4, e5, e6⟩ := readNext_spec m (l.setFront f') _ r hsl1 hwf1
-      rw [e1] at h
-      simp only at h
-      have hfe : f.unread m = [] := by simp [BS.unread, hz]
-      cases hr2 : l2.sl with
-      | nil => simp only [LBuf.front?, hr2, head?_nil] at h; cases h
-      | cons g r2 =>
-        simp only [LBuf.front?, hr2, head?_cons] at h
-        have hg : g.WF m2 := by
-          have : SlicesWF m2 l2.sl := by rw [e2]; exact e4
-          exact this g (by rw [hr2]; exact mem_cons_self)
-        obtain ⟨gd1, gd2, gd3, gd4, gd5, gd6⟩ := BS.read_spec m2 g 1 hg
-        rcases hgd : g.read m2 1 with ⟨g', d2, sh2⟩
-        rw [hgd] at gd1 gd2 gd3 gd4 gd5 gd6 h
-        simp only at gd1 gd2 gd3 gd4 gd5 gd6 h
-        cases hd2 : d2 with
-        | nil => rw [hd2] at h; cases h
-        | cons x rest =>
-          rw [hd2] at h
-          simp only [Option.some.injEq, Prod.mk.injEq] at h
-          obtain ⟨rfl, rfl, rfl⟩ := h
-          have hgu := BS.unread_length m2 g hg
-          have hgs : 1 ≤ g.size := by
-            have : d2.length = min 1 g.size := gd4
-            rw [hd2] at this; simp at this; omega
-          have hcr : content m r = content m2 (g :: r2) := by rw [← e3, ← hr2, e2]
-          have hrest : rest = [] := by
-            have : d2.length = min 1 g.size := gd4
-            rw [hd2, Nat.min_eq_left hgs] at this
-            simpa using this
-          subst hrest
-          have hslg : (l2.setFront g').sl = g' :: r2 := by rw [setFront_sl, hr2]; rfl
-          refine ⟨?_, ?_, ?_, ?_, e6⟩
-          · rw [content_cons, hfe, nil_append, hcr, content_cons, take_app_le _ _ _ (by omega), ← gd1, hd2]
-          · show content m2 (l2.setFront g').sl = _
-            rw [hslg, content_cons, gd2, content_cons, hfe, nil_append, hcr, content_cons, drop_app_le _ _ _ (by omega)]
-          · show SlicesWF m2 (l2.setFront g').sl
-            rw [hslg]; intro y hy
-            rcases mem_cons.mp hy with rfl | hy
-            · exact gd3
-            · have : SlicesWF m2 l2.sl := by rw [e2]; exact e4
-              exact this y (by rw [hr2]; exact mem_cons_of_mem _ hy)
-          · show l2.len - 1 = l.len - 1
-            rw [e5]; rfl
-    · have hsh : sh = false := by simpa using hshort
-      simp only [hsh, Bool.not_false, if_true, Option.some.injEq, Prod.mk.injEq] at h
-      obtain ⟨rfl, rfl, rfl⟩ := h
-      have hsz1 : 1 ≤ f.size := by
-        rcases Nat.lt_or_ge f.size 1 with h1 | h1
-        · exact absurd (rd5.mpr h1) hshort
-        · exact h1
-      have hdl : d.length = 1 := by rw [rd4]; omega
-      refine ⟨?_, ?_, hwf1, rfl, fun _ => rfl⟩
-      · rw [content_cons, take_app_le _ _ _ (by omega), ← rd1]
-        cases d with
-        | nil => simp at hdl
-        | cons x rest =>
-          have : rest = [] := by simpa using hdl
-          subst this; rfl
-      · show content m (l.setFront f').sl = _
-        rw [hsl1, content_cons, content_cons, rd2, drop_app_le _ _ _ (by omega)]
+  intro fuel
+  induction fuel with
+  | zero => intro m l _ _ hf; omega
+  | succ k ih =>
+    intro m l hwf hsz hfuel
+    unfold LBuf.readByte.go
+    cases hsl : l.sl with
+    | nil => rw [hsl] at hsz; simp [content] at hsz
+    | cons f r =>
+      have hf : f.WF m := hwf f (by rw [hsl]; exact mem_cons_self)
+      have hr : SlicesWF m r := fun x hx => hwf x (by rw [hsl]; exact mem_cons_of_mem _ hx)
+      simp only [LBuf.front?, hsl, head?_cons]
+      obtain ⟨rd1, rd2, rd3, rd4, rd5, rd6⟩ := BS.read_spec m f 1 hf
+      rcases hrd : f.read m 1 with ⟨f', d, sh⟩
+      rw [hrd] at rd1 rd2 rd3 rd4 rd5 rd6
+      simp only at rd1 rd2 rd3 rd4 rd5 rd6 ⊢
+      have hu := BS.unread_length m f hf
+      have hsl1 : (l.setFront f').sl = f' :: r := by rw [setFront_sl, hsl]; rfl
+      have hwf1 : SlicesWF m (l.setFront f').sl := by
+        rw [hsl1]; intro x hx
+        rcases mem_cons.mp hx with rfl | hx
+        · exact rd3
+        · exact hr x hx
+      by_cases hshort : sh = true
+      · have hz : f.size = 0 := by have := rd5.mp hshort; omega
+        simp only [hshort, Bool.not_true, Bool.false_eq_true, if_false]
+        obtain ⟨m2, l2, e1, e2, e3, e4, e5, e6⟩ := readNext_spec m (l.setFront f') _ r hsl1 hwf1
+        rw [e1]
+        simp only
+        have hfe : f.unread m = [] := by simp [BS.unread, hz]
+        have hc : content m l.sl = content m r := by rw [hsl, content_cons, hfe, nil_append]
+        have hc2 : content m2 l2.sl = content m r := by rw [e2]; exact e3
+        have hlen : l2.sl.length + 1 ≤ k := by
+          rw [e2]; rw [hsl] at hfuel; simp only [length_cons] at hfuel; omega
+        obtain ⟨m', l', b, g1, g2, g3, g4, g5, g6⟩ := ih m2 l2 (by rw [e2]; exact e4) (by rw [hc2, ← hc]; exact hsz) hlen
+        refine ⟨m', l', b, g1, ?_, ?_, g4, ?_, fun j => (g6 j).trans (e6 j)⟩
+        · rw [g2, hc2, ← hc, hsl]
+        · rw [g3, hc2, ← hc, hsl]
+        · rw [g5, e5]; rfl
+      · have hsh : sh = false := by simpa using hshort
+        simp only [hsh, Bool.not_false, if_true]
+        have hsz1 : 1 ≤ f.size := by
+          rcases Nat.lt_or_ge f.size 1 with h1 | h1
+          · exact absurd (rd5.mpr h1) hshort
+          · exact h1
+        have hdl : d.length = 1 := by rw [rd4]; omega
+        refine ⟨m, _, d.headD 0, rfl, ?_, ?_, hwf1, rfl, fun _ => rfl⟩
+        · rw [content_cons, take_app_le _ _ _ (by omega), ← rd1]
+          cases d with
+          | nil => simp at hdl
+          | cons x rest =>
+            have : rest = [] := by simpa using hdl
+            subst this; rfl
+        · show content m (l.setFront f').sl = _
+          rw [hsl1, content_cons, content_cons, rd2, drop_app_le _ _ _ (by omega)]
+
+/-- **linkedBuffer.ReadByte with at least one byte buffered returns the next byte and consumes it** - wherever it lies:
+    used-up and empty slices in front of it (a fall-back event may carry an empty payload) are popped -/
+theorem readByte_spec (m : Mem) (l : LBuf) (hwf : SlicesWF m l.sl) (hsz : 1 ≤ (content m l.sl).length) :
+    ∃ m' l' b, l.readByte m = some (m', l', b) ∧
+      [b] = (content m l.sl).take 1 ∧ content m' l'.sl = (content m l.sl).drop 1 ∧ SlicesWF m' l'.sl ∧ l'.len = l.len - 1 ∧
+      (∀ j, (m'.slot j).data = (m.slot j).data) :=
+  readByte_go_spec _ m l hwf hsz (Nat.le_refl _)
 
 end LB
